@@ -2697,6 +2697,15 @@ spec(lean="redirect_tree", module="AlgoRedirect", file=_TU, func="redirect_tree"
 # further specs live one file per group in harness/algo_specs/*.py; each file is executed in THIS module's namespace (it calls `spec(...)` and may
 # extend MODULE_IMPORTS / MODULE_STRUCTS / STRUCTS / CLASS_INITS), in file-name order
 HOOK_SCOPE = {}      # id(hook) -> the generated modules of the plugin that registered it: a plugin's hooks serve its own specs only
+
+
+def share_hooks(from_module: str, to_module: str):
+    """the hooks that serve `from_module` (registered by an earlier plugin) also serve `to_module`"""
+    for mods in HOOK_SCOPE.values():
+        if from_module in mods:
+            mods.add(to_module)
+
+
 for _f in sorted((VERIF / "harness" / "algo_specs").glob("*.py")):
     _n = (len(EXPR_HOOKS), len(STMT_HOOKS), len(SPECS))
     exec(compile(_f.read_text(), str(_f), "exec"), globals())
